@@ -17,7 +17,23 @@ def mk_cube(case):
     ni, nb, nbin = case["shape"]
     data = np.array([rng.randrange(0, 1000) for _ in range(ni * nb * nbin)], dtype=np.float32).reshape(ni, nb, nbin)
     h = mk_header(case["nchans"], 8, nsamples=case["nsamples"], tsamp=case["tsamp"])
-    return FoldedData(data.copy(), h, case["period0"], case["dm0"], 0), data
+    return FoldedData(_layout(data, case.get("layout", "c")), h, case["period0"], case["dm0"], 0), data
+
+
+def _layout(data, how):
+    """the same cube values held in a differently laid-out float32 array (a legal input: the constructor keeps views)"""
+    ni, nb, nbin = data.shape
+    if how == "trim":        # band-trimmed slice of a wider cube
+        big = np.zeros((ni, nb + 3, nbin), dtype=np.float32)
+        big[:, 1:1 + nb] = data
+        return big[:, 1:1 + nb]
+    if how == "stride":      # every other bin of a finer cube
+        big = np.zeros((ni, nb, 2 * nbin), dtype=np.float32)
+        big[..., ::2] = data
+        return big[..., ::2]
+    if how == "T":           # bin-major storage
+        return np.ascontiguousarray(data.transpose(2, 1, 0)).transpose(2, 1, 0)
+    return data.copy()
 
 
 class C17(Prop):
@@ -34,7 +50,8 @@ class C17(Prop):
     def _base(self, rng):
         shape = [rng.choice((1, 2, 4)), rng.choice((1, 2, 4)), rng.choice((8, 16, 32))]
         return {"shape": shape, "nchans": 64, "nsamples": 5000000, "tsamp": 64e-6, "period0": rng.choice((0.0372, 0.25, 1.337)),
-                "dm0": rng.choice((0.0, 30.0, 120.5)), "dseed": rng.randrange(1 << 30)}
+                "dm0": rng.choice((0.0, 30.0, 120.5)), "dseed": rng.randrange(1 << 30),
+                "layout": rng.choice(("c", "c", "c", "trim", "stride", "T"))}
 
     def _alphabet(self, c, rng):
         dms = [c["dm0"], c["dm0"] + rng.choice((5.0, 40.0, 200.0)), max(0.0, c["dm0"] - rng.choice((3.0, 25.0)))]
@@ -140,8 +157,20 @@ class C17(Prop):
         orig = np.array(obs["orig"]).reshape(ni, nb, nbin)
         steps = obs["steps"]
         hist = case["hist"]
+        dmd, pd = [0] * nb, [0] * ni      # drift (folding value -> current target) of each sub-band / sub-integration
         for k, (st, (op, v)) in enumerate(zip(steps, hist)):
             cube = np.array(st["cube"]).reshape(ni, nb, nbin)
+            if op == "dm":
+                dmd = st["drift"]
+            else:
+                pd = st["drift"]
+            # the statement itself, evaluated here: the cube as folded with every profile rotated once by the drift of
+            # the current targets (not by re-running the implementation on a second cube)
+            for i in range(ni):
+                for b in range(nb):
+                    if not (cube[i, b] == np.roll(orig[i, b], -(dmd[b] + pd[i]))).all():
+                        return (f"step {k} of {hist[:k + 1]} ({case.get('layout', 'c')} layout): profile ({i},{b}) is not the "
+                                f"folded profile rotated by the drift {dmd[b] + pd[i]} of dm={st['dm']}, period={st['period']}")
             if (op == "dm" and st["dm"] != v) or (op == "p" and st["period"] != v):
                 return f"step {k}: reported dm/period {st['dm']}/{st['period']} after {op}={v}"
             for i in range(ni):
